@@ -487,6 +487,7 @@ func init() {
 			out = append(out, Inst{Pkg: "knx", Fn: "HarnessC12Out", Args: []int64{0, n}, Unwind: 2000},
 				// router client built by the real constructor on the redirected socket: engine-only
 				Inst{Pkg: "knx", Fn: "HarnessC12Out", Args: []int64{1, n}, Unwind: 2000, NoNative: true},
+				Inst{Pkg: "knx", Fn: "HarnessC12Out", Args: []int64{2, n}, Unwind: 2000, NoNative: true, Ctx: 2, Note: "group tunnel built by the real NewGroupTunnel against a scripted gateway"},
 				Inst{Pkg: "knx", Fn: "HarnessC12E2E", Args: []int64{n}, Unwind: 2000, NoNative: true})
 		}
 		for kind := int64(0); kind <= 10; kind++ {
@@ -496,7 +497,8 @@ func init() {
 		}
 		for _, p := range [][2]int64{{15, 16}, {16, 15}, {0, 254}, {254, 1}} {
 			out = append(out, Inst{Pkg: "knx", Fn: "HarnessC12OutSeq", Args: []int64{0, p[0], p[1]}, Unwind: 2000, NoNative: true},
-				Inst{Pkg: "knx", Fn: "HarnessC12OutSeq", Args: []int64{1, p[0], p[1]}, Unwind: 2000, NoNative: true})
+				Inst{Pkg: "knx", Fn: "HarnessC12OutSeq", Args: []int64{1, p[0], p[1]}, Unwind: 2000, NoNative: true},
+				Inst{Pkg: "knx", Fn: "HarnessC12OutSeq", Args: []int64{2, p[0], p[1]}, Unwind: 2000, NoNative: true, Ctx: 2})
 		}
 		return out
 	}
@@ -505,7 +507,7 @@ func init() {
 		Quick:    func(l *loaded) []Inst { return c12(false) },
 		Thorough: func(l *loaded) []Inst { return c12(true) },
 		Covers:   []string{"C12.out.end", "C12.in.surfaced", "C12.in.filtered", "C12.e2e.end", "C12.outseq.end"},
-		Bounds:   "outbound: all three commands, every source/destination/payload byte symbolic, payload lengths {0,1,2,15,16,254} (thorough 0..254), through GroupTunnel.Send (TCP-mode tunnel on the in-memory socket) and through GroupRouter.Send of a client built by the real NewGroupRouter (socket constructor redirected; the datagram bytes written are decoded again, so the first payload byte is compared in its low six bits and an empty payload as one zero byte); inbound: one message of every cEMI kind (L_Data req/con/ind with application or control unit, L_Raw x3, L_Busmon, unsupported) with all fields symbolic fed to the real serveGroupInbound goroutine, all interleavings of the three goroutines; end to end through knxnet.Pack/Unpack",
+		Bounds:   "outbound: all three commands, every source/destination/payload byte symbolic, payload lengths {0,1,2,15,16,254} (thorough 0..254), through GroupTunnel.Send (TCP-mode tunnel on the in-memory socket, and a UDP group tunnel built by the real NewGroupTunnel against a scripted gateway) and through GroupRouter.Send of a client built by the real NewGroupRouter (socket constructor redirected; the datagram bytes written are decoded again, so the first payload byte is compared in its low six bits and an empty payload as one zero byte); inbound: one message of every cEMI kind (L_Data req/con/ind with application or control unit, L_Raw x3, L_Busmon, unsupported) with all fields symbolic fed to the real serveGroupInbound goroutine, all interleavings of the three goroutines; end to end through knxnet.Pack/Unpack",
 		Outside:  "payloads above 254 bytes; more than one message per inbound run (ordering is C17)",
 	})
 
@@ -593,7 +595,7 @@ func init() {
 
 	c17 := func(maxK int64) []Inst {
 		var out []Inst
-		for client := int64(0); client < 5; client++ {
+		for client := int64(0); client < 7; client++ {
 			for k := int64(2); k <= maxK; k++ {
 				for mode := int64(0); mode < 4; mode++ {
 					out = append(out, Inst{Pkg: "knx", Fn: "HarnessC17", Args: []int64{client, k, mode}})
@@ -608,7 +610,7 @@ func init() {
 		Quick:    func(l *loaded) []Inst { return c17(3) },
 		Thorough: func(l *loaded) []Inst { return c17(5) },
 		Covers:   []string{"C17.end"},
-		Bounds:   "tunnel client (pushInbound directly and through handleTunnelReq in UDP and TCP mode), router client and the group layer; bursts of 2..3 (thorough ..5) accepted telegrams; consumer always waiting, absent for the whole burst, taking one telegram and then stalling, or resuming in the middle of the burst; every interleaving of the server side, the parked delivery goroutines and the consumer",
+		Bounds:   "tunnel client (pushInbound directly, through handleTunnelReq in UDP and TCP mode, and a client built by the real NewTunnel fed through its socket in UDP and TCP mode), router client (built by the real NewRouter, fed through its socket) and the group layer; bursts of 2..3 (thorough ..5) accepted telegrams; consumer always waiting, absent for the whole burst, taking one telegram and then stalling, or resuming in the middle of the burst; every interleaving of the server side, the parked delivery goroutines and the consumer",
 		Outside:  "bursts longer than 5; the runtime's FIFO order among senders that are already blocked is not modelled (any blocked sender may be served), which only adds schedules",
 		Assume:   []string{"the pinned tree reordered overflowed telegrams (per-telegram goroutines); repaired by the fix: commit recorded in known_findings.json, so all consumer behaviours are enforced now"},
 	})
@@ -812,6 +814,7 @@ func init() {
 				for nw := int64(0); nw < 3; nw++ {
 					out = append(out, Inst{Pkg: "knx", Fn: "HarnessC16HostInfo", Args: []int64{tcp, loc, nw}})
 				}
+				out = append(out, Inst{Pkg: "knx", Fn: "HarnessC16HostInfoBB", Args: []int64{tcp, loc}, NoNative: true, Note: "connect request written by the real NewTunnel"})
 			}
 		}
 		return out
@@ -829,7 +832,7 @@ func init() {
 		NoNative: true,
 		Quick:    func(l *loaded) []Inst { return hang(c16(false)) },
 		Thorough: func(l *loaded) []Inst { return hang(c16(true)) },
-		Covers:   []string{"C16.tcp.end", "C16.tcpbad.end", "C16.udp.end", "C16.hostinfo.nat", "C16.hostinfo.local", "C16.send.concurrent.end", "C16.close.end", "C16.origin.accepted", "C16.origin.dropped", "C16.tcpbig.end"},
+		Covers:   []string{"C16.tcp.end", "C16.tcpbad.end", "C16.udp.end", "C16.hostinfo.nat", "C16.hostinfo.local", "C16.hostinfo.bb.nat", "C16.hostinfo.bb.local", "C16.send.concurrent.end", "C16.close.end", "C16.origin.accepted", "C16.origin.dropped", "C16.tcpbig.end"},
 		Bounds:   "real serveTCPSocket (with the real bufio.Reader and io.ReadFull) on streams of 1..2 (thorough 3) concatenated frames of five kinds (tunnelling ack, connection-state response, disconnect request, tunnelling requests carrying L_Data and L_Busmon) with symbolic field values, one 4.2 KB bus-monitor frame (longer than bufio's buffer), the Read stub returning: every placement of up to 2 (3) cut points, 1-byte dribble, or everything at once, then EOF; a frame with arbitrary body followed by a good one; a header announcing total length 0..5 (symbolic); real serveUDPSocket on 1..2 (3) datagrams, optionally preceded by an arbitrary symbolic datagram of 1..12 bytes into the reused 1024-byte buffer; Tunnel.hostInfo through requestConn for UDP/TCP/other sockets with and without SendLocalAddress; 2 (thorough 3) goroutines sending different frames through one TunnelSocket whose Write is a scheduling point",
 		Outside:  "50-frame streams (the receiver keeps no state between frames other than bufio's buffer); more than 3 cut points at once; more than 2 (thorough 3) concurrent senders; an application that never reads again after Close (a receiver blocked on an undelivered frame ends only when that frame is read; decided here: Close with 0..2 decoded frames pending and a reader that drains); kernel sockets, Dial*/Listen*, address parsing inside HostInfoFromAddress (redirected to an environment function)",
 		Assume:   []string{"(*net.TCPConn).Read / (*net.UDPConn).ReadFromUDP are engine stubs obeying the io.Reader contract with nondeterministic segment sizes"},
